@@ -8,15 +8,15 @@ use serde_json::json;
 fn worlds(quick: bool) -> Vec<(&'static str, Cfg, u8)> {
     let mut v = vec![
         // a fresh code at the confidential client: every way of redeeming it, then refresh and replay
-        ("one-code", Cfg { clients: vec![0], max_codes: 1, max_sets: 3, lifecycle: false, ticks: vec![0], pre_ops: vec![Op::Authorise(0, 1)], legacy_crypto: false, key_revocation: false }, if quick { 3 } else { 5 }),
+        ("one-code", Cfg { clients: vec![0], max_codes: 1, max_sets: 3, lifecycle: false, ticks: vec![0], pre_ops: vec![Op::Authorise(0, 1)], legacy_crypto: false, key_revocation: false, cred_replacement: false, only_keys: vec![] }, if quick { 3 } else { 5 }),
         // tokens already issued and refreshed once: revocation, account expiry, logout, time
-        ("issued-and-refreshed", Cfg { clients: vec![0], max_codes: 1, max_sets: 3, lifecycle: true, ticks: vec![1, 2], pre_ops: vec![Op::Authorise(0, 1), Op::Exchange(0, Mutation::None), Op::Refresh(0, 0)], legacy_crypto: false, key_revocation: false }, if quick { 2 } else { 4 }),
+        ("issued-and-refreshed", Cfg { clients: vec![0], max_codes: 1, max_sets: 3, lifecycle: true, ticks: vec![1, 2], pre_ops: vec![Op::Authorise(0, 1), Op::Exchange(0, Mutation::None), Op::Refresh(0, 0)], legacy_crypto: false, key_revocation: false, cred_replacement: false, only_keys: vec![] }, if quick { 2 } else { 4 }),
     ];
     // a code waiting to be redeemed while the account expires / the parent session is logged out
-    v.push(("code-then-lifecycle", Cfg { clients: vec![0], max_codes: 1, max_sets: 2, lifecycle: true, ticks: vec![0], pre_ops: vec![Op::Authorise(0, 1)], legacy_crypto: false, key_revocation: false }, if quick { 2 } else { 3 }));
+    v.push(("code-then-lifecycle", Cfg { clients: vec![0], max_codes: 1, max_sets: 2, lifecycle: true, ticks: vec![0], pre_ops: vec![Op::Authorise(0, 1)], legacy_crypto: false, key_revocation: false, cred_replacement: false, only_keys: vec![] }, if quick { 2 } else { 3 }));
     if !quick {
-        v.push(("public-client", Cfg { clients: vec![2], max_codes: 2, max_sets: 3, lifecycle: true, ticks: vec![0, 1], pre_ops: vec![], legacy_crypto: false, key_revocation: false }, 4));
-        v.push(("two-grants", Cfg { clients: vec![0, 2], max_codes: 2, max_sets: 4, lifecycle: true, ticks: vec![1], pre_ops: vec![Op::Authorise(0, 0), Op::Exchange(0, Mutation::None)], legacy_crypto: false, key_revocation: false }, 4));
+        v.push(("public-client", Cfg { clients: vec![2], max_codes: 2, max_sets: 3, lifecycle: true, ticks: vec![0, 1], pre_ops: vec![], legacy_crypto: false, key_revocation: false, cred_replacement: false, only_keys: vec![] }, 4));
+        v.push(("two-grants", Cfg { clients: vec![0, 2], max_codes: 2, max_sets: 4, lifecycle: true, ticks: vec![1], pre_ops: vec![Op::Authorise(0, 0), Op::Exchange(0, Mutation::None)], legacy_crypto: false, key_revocation: false, cred_replacement: false, only_keys: vec![] }, 4));
     }
     v
 }
